@@ -178,7 +178,15 @@ func NewNode(ctx context.Context, w *World, f Flavour, index int, state DBState)
 	}
 	if f == AccessNode {
 		n.Storage = gnosisaccessnode.NewStorage()
-		if state != StateEmpty {
+		// what the access node has synced so far: the keyper set is known from the moment it is
+		// added on chain, the eon key only once a key generation has succeeded
+		switch state {
+		case StateEmpty:
+		case StateNoDKGResult, StateFailedDKG:
+			n.Storage.AddKeyperSet(uint64(w.CfgIndex), w.Keypers.KeyperSet(w.CfgIndex, w.Activation, int32(w.T)))
+		case StateNotMember: // the reverse partial state (events are synced by independent loops)
+			n.Storage.AddEonKey(uint64(w.CfgIndex), w.Eon.PublicKey)
+		default:
 			n.Storage.AddEonKey(uint64(w.CfgIndex), w.Eon.PublicKey)
 			n.Storage.AddKeyperSet(uint64(w.CfgIndex), w.Keypers.KeyperSet(w.CfgIndex, w.Activation, int32(w.T)))
 		}
